@@ -110,7 +110,8 @@ def build_api(cls, r, rnd, unit=UNIT):
             c.X_MOZ_SNOOZE_TIME = inst(r["snooze"], unit)
         if r["ackC"] != -1:
             c.X_MOZ_LASTACK = inst(r["ackC"], unit)
-            c.DTSTAMP = inst(99, unit)          # must be ignored for Thunderbird components
+        if r["ackC"] != -1 or rnd.random() < 0.7:
+            c.DTSTAMP = inst(99, unit)          # must be ignored for Thunderbird components, with or without X-MOZ-LASTACK
         if not c.is_thunderbird():
             c.add("X-MOZ-GENERATION", "1")
     elif r["ackC"] != -1:
@@ -134,7 +135,10 @@ def run_row(ctx, v, rnd, ev=None, unit=UNIT, tag="row"):
             else:
                 al = Alarms(comp)
             if r["local"]:
-                al.set_local_timezone("Europe/Berlin")
+                # the local time zone may be given by name or as a tzinfo object of either family, whatever the provider
+                import pytz as _pytz
+                from zoneinfo import ZoneInfo as _ZI
+                al.set_local_timezone(rnd.choice(["Europe/Berlin", _ZI("Europe/Berlin"), _pytz.timezone("Europe/Berlin")]))
             ob = observe(al, unit)
             ctx.evaluations += 1
             case = {"r": r, "cls": cls.__name__, "route": route, "provider": tzp.name}
